@@ -8,8 +8,9 @@
 (*   Fetch(r, a) / FetchErr attestationDataProvider.AttestationData returns data a / an error   *)
 (*   Validate(r, pass)      validateAttestationData                                             *)
 (*   Accounts(r, A) / AccountsErr   ValidatingAccountsForEpochByIndex returns accounts for A    *)
-(*   SignCall(r, req, sd)   SignBeaconAttestations is asked for req (validator, committee      *)
-(*                          index pairs) over data sd ...                                       *)
+(*   SignCallSeq(r, rs, sd) SignBeaconAttestations is asked for rs (the SEQUENCE of validator,  *)
+(*                          committee index pairs, one per position of its account list) over   *)
+(*                          data sd ...  (SignCall(r, req, sd): the same for a set of pairs)    *)
 (*   SignRet(r, Z, ok)      ... and answers (Z = zero signatures returned) or fails             *)
 (*   Build(r, A)            createAttestations yields the attestations A                        *)
 (*   SubmitCall(r)          SubmitAttestations is handed the attestations ...                   *)
@@ -62,19 +63,36 @@ Max(a, b) == IF a > b THEN a ELSE b
 -----------------------------------------------------------------------------
 (* Duties.  d.vals / d.comm / d.pos are the parallel arrays of attester.Duty, d.sizes is a      *)
 (* sequence of <<committee, size>> pairs (committeeLengths).                                    *)
+(*                                                                                              *)
+(* THE SHAPE OF A DUTY IS THE BEACON NODE'S.  A duty is a SEQUENCE of entries                   *)
+(* (validator, committee, position): the controller groups whatever the node's attester-duties  *)
+(* endpoint returned by slot (attester.MergeDuties appends entry after entry) and removes       *)
+(* nothing.  The same validator may therefore be listed MORE THAN ONCE in one duty - with the   *)
+(* same or with different committees (a node confused about a re-org; two nodes' answers        *)
+(* concatenated) -, every / some / none of the listed validators may have attested already or   *)
+(* have no account.  The property is quantified over "any duties ... repeated validators": the  *)
+(* signer may be asked at most once per validator and epoch all the same, counted over the      *)
+(* POSITIONS of the account list of every call (signReq[..].mult), not over the marks.          *)
 NoDuty == [slot |-> -1, vals |-> <<>>, comm |-> <<>>, pos |-> <<>>, sizes |-> <<>>]
 NoData == [slot |-> -1, src |-> -1, tgt |-> -1, root |-> -1]
+\* a response without data / without source / without target checkpoint (the node answered, there is
+\* no error): data that does not meet the rule, whatever the duty
+Incomplete == [slot |-> 1000000000, src |-> 1000000000, tgt |-> 1000000000, root |-> 0]
 
+\* the entries of duty d that list validator v (one, unless the node repeats the validator)
+Entries(d, v) == {i \in DOMAIN d.vals : d.vals[i] = v}
 Idx(d, v) == CHOOSE i \in DOMAIN d.vals : d.vals[i] = v
 CommOfV(d, v) == d.comm[Idx(d, v)]
 PosOfV(d, v) == d.pos[Idx(d, v)]
 SizeOf(d, c) == (CHOOSE p \in Range(d.sizes) : p[1] = c)[2]
+Repeats(d) == \E i, j \in DOMAIN d.vals : i # j /\ d.vals[i] = d.vals[j]
 
-\* Env_DutyWellFormed: what the controller delivers (attester.NewDuty / MergeDuties)
+\* Env_DutyWellFormed: what the controller delivers (attester.NewDuty / MergeDuties): at least one
+\* entry (MergeDuties makes a duty for a slot out of at least one API duty; an empty duty never
+\* leaves it), arrays parallel, every committee named has a size.  NOT assumed: distinct validators.
 WellFormed(d) ==
     /\ Len(d.vals) > 0
     /\ Len(d.comm) = Len(d.vals) /\ Len(d.pos) = Len(d.vals)
-    /\ \A i, j \in DOMAIN d.vals : d.vals[i] = d.vals[j] => i = j
     /\ \A p, q \in Range(d.sizes) : p[1] = q[1] => p = q
     /\ \A i \in DOMAIN d.vals : \E p \in Range(d.sizes) : p[1] = d.comm[i] /\ d.pos[i] < p[2]
 
@@ -89,13 +107,18 @@ DataChoices(d) ==
           [slot |-> d.slot, src |-> Max(e - 1, 0), tgt |-> e + 1, root |-> 1],
           [slot |-> d.slot, src |-> e + 1, tgt |-> e, root |-> 1]}
     \cup (IF e > 0 THEN {[slot |-> d.slot, src |-> Max(e - 2, 0), tgt |-> e - 1, root |-> 1]} ELSE {})
+    \cup {Incomplete}
 
-\* C04: the attestation the duty d and the obtained data a prescribe for validator v
-ExpectedAtt(d, v, a) ==
-    LET c == CommOfV(d, v)
+\* C04: the attestation that entry i of the duty d and the obtained data a prescribe
+ExpectedAttAt(d, i, a) ==
+    LET c == d.comm[i]
         dd == [slot |-> d.slot, src |-> a.src, tgt |-> a.tgt, root |-> a.root] IN
-    [index |-> c, size |-> SizeOf(d, c), bits |-> {PosOfV(d, v)}, data |-> dd,
-     sig |-> [v |-> v, c |-> c, data |-> dd]]
+    [index |-> c, size |-> SizeOf(d, c), bits |-> {d.pos[i]}, data |-> dd,
+     sig |-> [v |-> d.vals[i], c |-> c, data |-> dd]]
+\* ... for validator v: the one of its entry (a validator listed more than once: of either entry -
+\* each is the duty's word; ExpectedAtt is one of them)
+ExpectedAtt(d, v, a) == ExpectedAttAt(d, Idx(d, v), a)
+ExpectedAtts(d, v, a) == {ExpectedAttAt(d, i, a) : i \in Entries(d, v)}
 
 IdleRun == [pc |-> "idle", duty |-> NoDuty, i |-> 0, claimed |-> {}, data |-> NoData,
             accts |-> {}, req |-> {}, sd |-> NoData, zero |-> {}, atts |-> {}]
@@ -105,6 +128,20 @@ DoneRun == [IdleRun EXCEPT !.pc = "done"]
 
 ReqVals(req) == {p[1] : p \in req}
 ExpectedReq(rr) == {<<v, CommOfV(rr.duty, v)>> : v \in rr.accts}
+\* C04: one pair for every validator with an account, carrying the committee of an entry of that validator
+ReqOK(rr, req) ==
+    /\ ReqVals(req) = rr.accts
+    /\ Cardinality(req) = Cardinality(rr.accts)
+    /\ \A p \in req : \E i \in Entries(rr.duty, p[1]) : rr.duty.comm[i] = p[2]
+\* a set as a sequence (some order), and how many positions of a request sequence name validator v
+RECURSIVE SeqOfSet(_)
+SeqOfSet(S) == IF S = {} THEN <<>> ELSE LET x == CHOOSE y \in S : TRUE IN <<x>> \o SeqOfSet(S \ {x})
+Mult(rs, v) == Cardinality({i \in DOMAIN rs : rs[i][1] = v})
+\* the request of a design that walks the RAW duty and takes every entry whose validator has an account
+\* (right whenever the duty lists each validator once): the control design of the duty-shape class
+WalkReq(rr) == LET d == rr.duty
+                   hit == SelectSeq([i \in DOMAIN d.vals |-> i], LAMBDA i : d.vals[i] \in rr.accts) IN
+               [k \in DOMAIN hit |-> <<d.vals[hit[k]], d.comm[hit[k]]>>]
 SignData(rr) == [slot |-> rr.duty.slot, src |-> rr.data.src, tgt |-> rr.data.tgt, root |-> rr.data.root]
 Signed(rr) == ReqVals(rr.req) \ rr.zero
 OldPairs(rr) == {p \in attested : p[1] + 1 < Epoch(rr.duty.slot)}
@@ -180,22 +217,30 @@ AccountsErr(r) ==
     /\ run' = [run EXCEPT ![r].pc = "ret"]
     /\ UNCHANGED <<attested, signReq, submitted, horizon>>
 
-(* The signer is asked to sign for the <<validator, committee>> pairs req over the data sd      *)
-(* (SignCall); while it works (pc = "signing": a remote signer takes its time) other runs go    *)
-(* on; it answers with zero signatures for Z, or with an error - a request all the same         *)
-(* (SignRet).                                                                                   *)
-SignCall(r, req, sd) ==
-    LET rr == run[r] IN
+(* The signer is asked to sign for the SEQUENCE rs of <<validator, committee>> pairs - its       *)
+(* account list and committee list, position by position - over the data sd (SignCallSeq);      *)
+(* while it works (pc = "signing": a remote signer takes its time) other runs go on; it answers *)
+(* with zero signatures for Z, or with an error - a request all the same (SignRet).             *)
+(* Every POSITION is a signature asked for: the history keeps, per validator, how many          *)
+(* positions of the call name it (mult).  Nothing here keeps a validator from being named       *)
+(* twice: that is what NoDoubleSign judges, from the call as the signer received it.            *)
+SignCallSeq(r, rs, sd) ==
+    LET rr == run[r]
+        req == Range(rs) IN
     /\ rr.pc = "sign"
     /\ ReqVals(req) \subseteq rr.accts
-    /\ Cardinality(ReqVals(req)) = Cardinality(req)
     /\ Strict01 => /\ ReqVals(req) \subseteq rr.claimed
                    /\ DataOK(rr.duty, sd)
-    /\ Strict04 => /\ req = ExpectedReq(rr)
+    /\ Strict04 => /\ ReqOK(rr, req)
+                   /\ Len(rs) = Cardinality(req)
                    /\ sd = SignData(rr)
-    /\ signReq' = signReq \cup {[run |-> r, duty |-> rr.duty, dslot |-> rr.duty.slot, fetched |-> rr.data, req |-> req, data |-> sd]}
+    /\ signReq' = signReq \cup {[run |-> r, duty |-> rr.duty, dslot |-> rr.duty.slot, fetched |-> rr.data, req |-> req,
+                                 mult |-> [v \in ReqVals(req) |-> Mult(rs, v)], data |-> sd]}
     /\ run' = [run EXCEPT ![r].pc = "signing", ![r].req = req, ![r].sd = sd]
     /\ UNCHANGED <<attested, submitted, horizon>>
+
+\* ... for a set of pairs (each pair one position)
+SignCall(r, req, sd) == SignCallSeq(r, SeqOfSet(req), sd)
 
 SignRet(r, Z, ok) ==
     LET rr == run[r] IN
@@ -211,7 +256,7 @@ Build(r, A) ==
     LET rr == run[r] IN
     /\ rr.pc = "build"
     /\ Strict04 => /\ \A a \in A : /\ a.sig.v \in Signed(rr)
-                                   /\ a = ExpectedAtt(rr.duty, a.sig.v, rr.data)
+                                   /\ a \in ExpectedAtts(rr.duty, a.sig.v, rr.data)
                    /\ Cardinality({a.sig.v : a \in A}) = Cardinality(A)
     /\ run' = [run EXCEPT ![r].pc = IF A = {} THEN "ret" ELSE "submit", ![r].atts = A]
     /\ UNCHANGED <<attested, signReq, submitted, horizon>>
@@ -245,7 +290,8 @@ Housekeep(r, P) ==
 \* choices the property leaves to the implementation are taken as the code takes them (every signed
 \* validator is submitted, housekeeping drops all old entries or none): used for longer histories.
 Choice(Lean, S) == IF Lean THEN {S} ELSE SUBSET S
-NextWith(Duties, Lean) ==
+\* ReqSeq(rr): the request (sequence) the design under study builds from the run's duty and accounts
+NextWithReq(Duties, Lean, ReqSeq(_)) ==
     \/ \E r \in RunIds, d \in Duties :
             /\ \A q \in RunIds : q < r => run[q].pc # "idle"
             /\ Deliver(r, d)
@@ -256,7 +302,7 @@ NextWith(Duties, Lean) ==
         \/ \E pass \in BOOLEAN : Validate(r, pass)
         \/ \E A \in SUBSET run[r].claimed : Accounts(r, A)
         \/ AccountsErr(r)
-        \/ SignCall(r, ExpectedReq(run[r]), SignData(run[r]))
+        \/ SignCallSeq(r, ReqSeq(run[r]), SignData(run[r]))
         \/ \E Z \in SUBSET ReqVals(run[r].req), ok \in BOOLEAN : SignRet(r, Z, ok)
         \/ \E S \in Choice(Lean, Signed(run[r])) : Build(r, {ExpectedAtt(run[r].duty, v, run[r].data) : v \in S})
         \/ SubmitCall(r)
@@ -264,11 +310,19 @@ NextWith(Duties, Lean) ==
         \/ \E P \in Choice(Lean, OldPairs(run[r])) \cup {{}} : Housekeep(r, P)
         \/ \E P \in Choice(Lean, OwnUnsigned(r)) : Housekeep(r, P)
 
+\* the intended mechanism: one position per validator with an account
+IntendedReq(rr) == SeqOfSet(ExpectedReq(rr))
+NextWith(Duties, Lean) == NextWithReq(Duties, Lean, IntendedReq)
+\* the control design: the raw duty walked (must be rejected once a duty may repeat a validator)
+NextWalk(Duties, Lean) == NextWithReq(Duties, Lean, WalkReq)
+
 -----------------------------------------------------------------------------
 (* C01 *)
-\* at most one signature request per validator and epoch
+\* at most one signature request per validator and epoch: no validator at two positions of one call
+\* (the same pair twice, or with two committees), none in two calls for one epoch
 NoDoubleSign ==
-    \A s1, s2 \in signReq : \A p1 \in s1.req, p2 \in s2.req :
+    /\ \A s \in signReq : \A v \in DOMAIN s.mult : s.mult[v] = 1
+    /\ \A s1, s2 \in signReq : \A p1 \in s1.req, p2 \in s2.req :
         (p1[1] = p2[1] /\ Epoch(s1.data.slot) = Epoch(s2.data.slot)) => (s1 = s2 /\ p1 = p2)
 
 \* ... hence never two votes of a validator for one target epoch (the slashable case)
@@ -301,12 +355,12 @@ AttestedMonotone == [][AttestedMonotoneStep]_vars
 AssignmentExact ==
     \A x \in submitted :
         /\ x.att.sig.v \in Range(x.duty.vals)
-        /\ x.att = ExpectedAtt(x.duty, x.att.sig.v, x.fetched)
+        /\ x.att \in ExpectedAtts(x.duty, x.att.sig.v, x.fetched)
 
 \* ... and the signer was asked with that validator's committee index over the same data
 SignAssignmentExact ==
     \A s \in signReq :
-        /\ \A p \in s.req : p[1] \in Range(s.duty.vals) /\ p[2] = CommOfV(s.duty, p[1])
+        /\ \A p \in s.req : p[1] \in Range(s.duty.vals) /\ \E i \in Entries(s.duty, p[1]) : p[2] = s.duty.comm[i]
         /\ s.data = [slot |-> s.dslot, src |-> s.fetched.src, tgt |-> s.fetched.tgt, root |-> s.fetched.root]
 
 \* validators without a signature yield no attestation
